@@ -93,7 +93,7 @@ func parseRecord(r []byte) (Record, error) {
 			if c&1 == 0 {
 				// even, blob
 				l := (c - 12) / 2
-				if int64(len(body)) < l {
+				if l < 0 || int64(len(body)) < l {
 					return res, ErrCorrupted
 				}
 				p := body[:l]
@@ -103,7 +103,7 @@ func parseRecord(r []byte) (Record, error) {
 				// odd, string
 				// TODO: deal with encoding
 				l := (c - 13) / 2
-				if int64(len(body)) < l {
+				if l < 0 || int64(len(body)) < l {
 					return res, ErrCorrupted
 				}
 				p := body[:l]
